@@ -30,10 +30,7 @@ func ZZ_C05_OracleEndBlock() {
 		}
 		env.AddValidator(oper, p, bonded)
 	}
-	nClaims := 2
-	if vrt.Thorough() {
-		nClaims = 3
-	}
+	nClaims := 2 // both tiers (a third claim multiplies the 18 000 paths of the quick tier by about ten)
 	for c := 0; c < nClaims; c++ {
 		s := string(rune('0' + c))
 		if !vrt.Bool("claim" + s) {
